@@ -206,7 +206,11 @@ def bad_field(r, t, cls):
             return r.choice(('32768', '-32769', '40000', '99999999'))
         if t == '!':
             # plain decimals beyond the SINGLE range (3.4E38)
-            return r.choice(('4' + '0' * 38, '-4' + '0' * 38, '1' + '0' * 39 + '.5'))
+            # (also just above the largest SINGLE, where the value rounds to
+            # infinity in single precision: 3.40282357E+38)
+            return r.choice(('4' + '0' * 38, '-4' + '0' * 38, '1' + '0' * 39 + '.5',
+                             '340282357' + '0' * 30, '-340282357' + '0' * 30,
+                             '34028236' + '0' * 31))
         if t == '#':
             return r.choice(('1' + '0' * 309, '-2' + '0' * 310))
         return r.choice(('2147483648', '-2147483649', '3000000000', '99999999999'))
